@@ -22,7 +22,15 @@ namespace Aegean.Properties.C14
 open Aegean.Model.C14
 
 /-- the regenerated leaves, as the model's parameter -/
-def genL {α : Type} [R α] : Leaves α := ⟨Gen.C14.xoff, Gen.C14.yoff, Gen.C14.modelVal⟩
+def genL {α : Type} [R α] : Leaves α :=
+  { xoff := Gen.C14.xoff, yoff := Gen.C14.yoff, modelVal := Gen.C14.modelVal,
+    skipLoX := Gen.C14.skipLoX, skipHiX := Gen.C14.skipHiX, skipOpsX := Gen.C14.skipOpsX,
+    skipLoY := Gen.C14.skipLoY, skipHiY := Gen.C14.skipHiY, skipOpsY := Gen.C14.skipOpsY,
+    thrFrac := Gen.C14.thrFrac, thrSigma := Gen.C14.thrSigma, maskOp := Gen.C14.maskOp,
+    residPlus := Gen.C14.residPlus }
+
+/-- FWHM2CC as the tree under test defines it: the regenerated expression at `ln2 = log 2` -/
+noncomputable def kG : ℝ := Gen.C14.fwhm2ccOf (Real.log 2)
 
 /-! ### Obligations on the regenerated arithmetic (these break if the source changes meaning) -/
 
@@ -87,6 +95,68 @@ theorem modelVal_eq (k peak xo yo sx sy theta x y : ℝ) :
       = Gen.C14.gauss x y peak (xo - 1) (yo - 1) (sx * k) (sy * k) theta := by
   rw [modelVal_canon, gauss_eq]
 
+/-! #### the sliced pieces: FWHM2CC, skip rule, mask thresholds, add / subtract dispatch -/
+
+/-- `FWHM2CC = 1 / (2·sqrt(2·ln 2))` -/
+theorem kG_eq : kG = (fwhm2cc : ℝ) := by
+  rw [fwhm2cc_real]
+  simp only [kG, Gen.C14.fwhm2ccOf, fwhm2ccOfHand, R.real_ofNat, R.real_sqrt]
+  first
+    | rfl
+    | (push_cast; rfl)
+    | (push_cast; ring)
+
+theorem kG_pos : 0 < kG := by rw [kG_eq]; exact fwhm2cc_pos
+theorem kG_lt_one : kG < 1 := by rw [kG_eq]; exact fwhm2cc_lt_one
+
+theorem skipLo_eq (n : ℝ) : Gen.C14.skipLoX n = 1 / 2 ∧ Gen.C14.skipLoY n = 1 / 2 := by
+  simp only [Gen.C14.skipLoX, Gen.C14.skipLoY, skipLoHand, R.real_ofSci, R.real_ofNat]
+  constructor <;> norm_num
+
+theorem skipHi_eq (n : ℝ) : Gen.C14.skipHiX n = n + 1 / 2 ∧ Gen.C14.skipHiY n = n + 1 / 2 := by
+  simp only [Gen.C14.skipHiX, Gen.C14.skipHiY, skipHiHand, R.real_ofSci, R.real_ofNat]
+  constructor <;> first | (norm_num; done) | (norm_num; ring) | ring
+
+/-- the chain is `LO ≤ xo < HI` on both axes -/
+theorem skipOps_eq : Gen.C14.skipOpsX = 2 ∧ Gen.C14.skipOpsY = 2 := by
+  simp only [Gen.C14.skipOpsX, Gen.C14.skipOpsY, skipOpsHand]; decide
+
+/-- the mask thresholds are `frac·peak` and `sigma·local_rms`, compared with `≥` -/
+theorem thr_eq (frac sigma peak rms : ℝ) :
+    Gen.C14.thrFrac frac sigma peak rms = frac * peak ∧ Gen.C14.thrSigma frac sigma peak rms = sigma * rms := by
+  constructor <;> simp only [Gen.C14.thrFrac, Gen.C14.thrSigma, thrFracHand, thrSigmaHand] <;> try ring
+
+theorem maskOp_eq : Gen.C14.maskOp = 1 := by
+  simp only [Gen.C14.maskOp, maskOpHand]
+
+/-- `residual = data + model` iff `add or mask` -/
+theorem residPlus_table (add mask : Bool) :
+    (Gen.C14.residPlus (if add then 1 else 0) (if mask then 1 else 0) == 1) = (add || mask) := by
+  cases add <;> cases mask <;> simp [Gen.C14.residPlus, residPlusHand]
+
+theorem residPlus_vals :
+    ((genL : Leaves ℝ).residPlus 0 0 == 1) = false ∧ ((genL : Leaves ℝ).residPlus 1 0 == 1) = true ∧
+    ((genL : Leaves ℝ).residPlus 0 1 == 1) = true ∧ ((genL : Leaves ℝ).residPlus 1 1 == 1) = true := by
+  have h := residPlus_table
+  refine ⟨?_, ?_, ?_, ?_⟩
+  · simpa [genL] using h false false
+  · simpa [genL] using h true false
+  · simpa [genL] using h false true
+  · simpa [genL] using h true true
+
+/-- **skip rule, regenerated**: the sliced bounds and operators, assembled by the glue `onAxisG`, test exactly
+    whether the 0-based centre `xo − 1` lies in `[−½, n−½)` -/
+theorem onX_real (xo : ℝ) (n : Nat) : (genL : Leaves ℝ).onX xo n = true ↔ (1 / 2 ≤ xo ∧ xo < n + 1 / 2) := by
+  simp only [Leaves.onX, genL, onAxisG, cmpG, skipOps_eq.1, (skipLo_eq _).1, (skipHi_eq _).1, R.real_ofNat]
+  simp
+
+theorem onY_real (yo : ℝ) (n : Nat) : (genL : Leaves ℝ).onY yo n = true ↔ (1 / 2 ≤ yo ∧ yo < n + 1 / 2) := by
+  simp only [Leaves.onY, genL, onAxisG, cmpG, skipOps_eq.2, (skipLo_eq _).2, (skipHi_eq _).2, R.real_ofNat]
+  simp
+
+theorem maskHit_real (t v : ℝ) : maskHit (genL : Leaves ℝ) t v = true ↔ t ≤ v := by
+  simp [maskHit, genL, maskOp_eq]
+
 /-- **gaussian_peak**: the value at the centre is the amplitude -/
 theorem gaussian_peak (amp xo yo sx sy theta : ℝ) :
     Gen.C14.gauss xo yo amp xo yo sx sy theta = amp := by
@@ -142,55 +212,55 @@ theorem onAxisPinned_real (xo : ℝ) (n : Nat) : onAxisPinned xo n = true ↔ (0
   simp only [onAxisPinned, Bool.and_eq_true, real_ltb, R.real_ofNat, Nat.cast_zero]
 
 /-- when (over ℝ) a source is modelled, and over which index window -/
-theorem window_some_iff (L : Leaves ℝ) (nx ny : Nat) (p : Pix ℝ) (w : Win) :
-    window L nx ny p = some w ↔
+theorem window_some_iff (nx ny : Nat) (p : Pix ℝ) (w : Win) :
+    window (genL : Leaves ℝ) nx ny p = some w ↔
       (1 / 2 ≤ p.xo ∧ p.xo < nx + 1 / 2) ∧ (1 / 2 ≤ p.yo ∧ p.yo < ny + 1 / 2) ∧
-      w = { x0 := clipLo ⌊p.xo - L.xoff p.sx p.sy p.theta⌋,
-            x1 := clipHi ⌈p.xo + L.xoff p.sx p.sy p.theta⌉ nx,
-            y0 := clipLo ⌊p.yo - L.yoff p.sx p.sy p.theta⌋,
-            y1 := clipHi ⌈p.yo + L.yoff p.sx p.sy p.theta⌉ ny } := by
+      w = { x0 := clipLo ⌊p.xo - (genL : Leaves ℝ).xoff p.sx p.sy p.theta⌋,
+            x1 := clipHi ⌈p.xo + (genL : Leaves ℝ).xoff p.sx p.sy p.theta⌉ nx,
+            y0 := clipLo ⌊p.yo - (genL : Leaves ℝ).yoff p.sx p.sy p.theta⌋,
+            y1 := clipHi ⌈p.yo + (genL : Leaves ℝ).yoff p.sx p.sy p.theta⌉ ny } := by
   unfold window windowWith
-  by_cases hx : onAxis p.xo nx = true
-  · by_cases hy : onAxis p.yo ny = true
+  by_cases hx : (genL : Leaves ℝ).onX p.xo nx = true
+  · by_cases hy : (genL : Leaves ℝ).onY p.yo ny = true
     · simp only [hx, hy, real_isNaN, real_floorI, real_ceilI, Bool.not_true, Bool.or_self,
         Bool.false_eq_true, if_false, Option.some.injEq]
-      rw [onAxis_real] at hx hy
+      rw [onX_real] at hx; rw [onY_real] at hy
       constructor
       · intro h; exact ⟨hx, hy, h.symm⟩
       · intro h; exact h.2.2.symm
-    · have hy' : onAxis p.yo ny = false := by simpa using hy
+    · have hy' : (genL : Leaves ℝ).onY p.yo ny = false := by simpa using hy
       simp only [hx, hy', Bool.not_true, Bool.not_false, Bool.false_eq_true, if_false, if_true]
-      rw [onAxis_real] at hy
+      rw [onY_real] at hy
       constructor
       · intro h; cases h
       · intro h; exact absurd h.2.1 hy
-  · have hx' : onAxis p.xo nx = false := by simpa using hx
+  · have hx' : (genL : Leaves ℝ).onX p.xo nx = false := by simpa using hx
     simp only [hx', Bool.not_false, if_true]
-    rw [onAxis_real] at hx
+    rw [onX_real] at hx
     constructor
     · intro h; cases h
     · intro h; exact absurd h.1 hx
 
 /-- **offimage ⇒ skipped** (ℝ): a source whose 0-based centre `(xo−1, yo−1)` is not in
     `[−½, nx−½) × [−½, ny−½)` has no window -/
-theorem offimage_window_none (L : Leaves ℝ) (nx ny : Nat) (p : Pix ℝ)
+theorem offimage_window_none (nx ny : Nat) (p : Pix ℝ)
     (h : ¬ ((1 / 2 ≤ p.xo ∧ p.xo < nx + 1 / 2) ∧ (1 / 2 ≤ p.yo ∧ p.yo < ny + 1 / 2))) :
-    window L nx ny p = none := by
-  cases hw : window L nx ny p with
+    window (genL : Leaves ℝ) nx ny p = none := by
+  cases hw : window (genL : Leaves ℝ) nx ny p with
   | none => rfl
   | some w =>
-    have := (window_some_iff L nx ny p w).mp hw
+    have := (window_some_iff nx ny p w).mp hw
     exact absurd ⟨this.1, this.2.1⟩ h
 
 /-- conversely every source centred on the image is modelled (over ℝ nothing is non-finite) -/
-theorem onimage_window_some (L : Leaves ℝ) (nx ny : Nat) (p : Pix ℝ)
+theorem onimage_window_some (nx ny : Nat) (p : Pix ℝ)
     (hx : 1 / 2 ≤ p.xo ∧ p.xo < nx + 1 / 2) (hy : 1 / 2 ≤ p.yo ∧ p.yo < ny + 1 / 2) :
-    ∃ w, window L nx ny p = some w :=
-  ⟨_, (window_some_iff L nx ny p _).mpr ⟨hx, hy, rfl⟩⟩
+    ∃ w, window (genL : Leaves ℝ) nx ny p = some w :=
+  ⟨_, (window_some_iff nx ny p _).mpr ⟨hx, hy, rfl⟩⟩
 
 /-- every window lies inside the image (for any interpretation of the arithmetic) -/
-theorem window_in_image {α : Type} [R α] [RX α] (onA : α → Nat → Bool) (L : Leaves α) (nx ny : Nat)
-    (p : Pix α) (w : Win) (h : windowWith onA L nx ny p = some w) : w.x1 ≤ nx ∧ w.y1 ≤ ny := by
+theorem window_in_image {α : Type} [R α] [RX α] (onX onY : α → Nat → Bool) (L : Leaves α) (nx ny : Nat)
+    (p : Pix α) (w : Win) (h : windowWith onX onY L nx ny p = some w) : w.x1 ≤ nx ∧ w.y1 ≤ ny := by
   unfold windowWith at h
   split at h
   · cases h
@@ -205,7 +275,7 @@ theorem window_in_image {α : Type} [R α] [RX α] (onA : α → Nat → Bool) (
 theorem mem_in_image {α : Type} [R α] [RX α] (L : Leaves α) (nx ny : Nat)
     (p : Pix α) (w : Win) (h : window L nx ny p = some w) (i j : Nat) (hm : w.mem i j = true) :
     i < nx ∧ j < ny := by
-  have := window_in_image onAxis L nx ny p w h
+  have := window_in_image L.onX L.onY L nx ny p w h
   simp [Win.mem] at hm
   omega
 
@@ -218,7 +288,7 @@ theorem window_covers_rsigma (nx ny : Nat) (p : Pix ℝ) (w : Win) (k r : ℝ)
     (hr : 0 ≤ r) (hrk : r * k < 5) (i j : Nat) (hi : i < nx) (hj : j < ny)
     (hq : quad ((i : ℝ) - (p.xo - 1)) ((j : ℝ) - (p.yo - 1)) (p.sx * k) (p.sy * k) p.theta ≤ r ^ 2) :
     w.mem i j = true := by
-  obtain ⟨_, _, rfl⟩ := (window_some_iff genL nx ny p w).mp hw
+  obtain ⟨_, _, rfl⟩ := (window_some_iff nx ny p w).mp hw
   have ha : p.sx * k ≠ 0 := by positivity
   have hb : p.sy * k ≠ 0 := by positivity
   obtain ⟨bu, bv⟩ := ellipse_bbox _ _ (cs p.theta) (sn p.theta) (p.sx * k) (p.sy * k) r
@@ -259,36 +329,36 @@ theorem window_covers_rsigma (nx ny : Nat) (p : Pix ℝ) (w : Win) (k r : ℝ)
 theorem window_covers_5sigma (nx ny : Nat) (p : Pix ℝ) (w : Win)
     (hw : window genL nx ny p = some w) (hsx : 0 < p.sx) (hsy : 0 < p.sy)
     (i j : Nat) (hi : i < nx) (hj : j < ny)
-    (hq : quad ((i : ℝ) - (p.xo - 1)) ((j : ℝ) - (p.yo - 1)) (p.sx * fwhm2cc) (p.sy * fwhm2cc) p.theta ≤ 25) :
+    (hq : quad ((i : ℝ) - (p.xo - 1)) ((j : ℝ) - (p.yo - 1)) (p.sx * kG) (p.sy * kG) p.theta ≤ 25) :
     w.mem i j = true :=
-  window_covers_rsigma nx ny p w fwhm2cc 5 hw hsx hsy fwhm2cc_pos (by norm_num)
-    (by nlinarith [fwhm2cc_lt_one, fwhm2cc_pos]) i j hi hj (by norm_num; exact hq)
+  window_covers_rsigma nx ny p w kG 5 hw hsx hsy kG_pos (by norm_num)
+    (by nlinarith [kG_lt_one, kG_pos]) i j hi hj (by norm_num; exact hq)
 
 /-- the half-widths of the window bound the half-widths of the 5σ bounding box:
     `5·sqrt(σx² cos² + σy² sin²) ≤ FWHM2CC · xoff ≤ xoff` (and likewise for `yoff`) -/
 theorem halfwidth_bounds_bbox (sx sy theta : ℝ) :
-    5 * Real.sqrt ((sx * fwhm2cc) ^ 2 * cs theta ^ 2 + (sy * fwhm2cc) ^ 2 * sn theta ^ 2)
+    5 * Real.sqrt ((sx * kG) ^ 2 * cs theta ^ 2 + (sy * kG) ^ 2 * sn theta ^ 2)
       ≤ Gen.C14.xoff sx sy theta ∧
-    5 * Real.sqrt ((sx * fwhm2cc) ^ 2 * sn theta ^ 2 + (sy * fwhm2cc) ^ 2 * cs theta ^ 2)
+    5 * Real.sqrt ((sx * kG) ^ 2 * sn theta ^ 2 + (sy * kG) ^ 2 * cs theta ^ 2)
       ≤ Gen.C14.yoff sx sy theta := by
-  have hk := fwhm2cc_pos
-  have hk1 := fwhm2cc_lt_one
-  have key : ∀ a b : ℝ, Real.sqrt ((sx * fwhm2cc) ^ 2 * a ^ 2 + (sy * fwhm2cc) ^ 2 * b ^ 2)
+  have hk := kG_pos
+  have hk1 := kG_lt_one
+  have key : ∀ a b : ℝ, Real.sqrt ((sx * kG) ^ 2 * a ^ 2 + (sy * kG) ^ 2 * b ^ 2)
       ≤ |sx * a| + |sy * b| := by
     intro a b
     apply Real.sqrt_le_iff.mpr
     refine ⟨by positivity, ?_⟩
-    have h1 : (sx * fwhm2cc) ^ 2 * a ^ 2 ≤ |sx * a| ^ 2 := by
+    have h1 : (sx * kG) ^ 2 * a ^ 2 ≤ |sx * a| ^ 2 := by
       rw [sq_abs]
-      have : (sx * fwhm2cc) ^ 2 * a ^ 2 = (sx * a) ^ 2 * (fwhm2cc : ℝ) ^ 2 := by ring
+      have : (sx * kG) ^ 2 * a ^ 2 = (sx * a) ^ 2 * kG ^ 2 := by ring
       rw [this]
-      have : (fwhm2cc : ℝ) ^ 2 ≤ 1 := by nlinarith
+      have : kG ^ 2 ≤ 1 := by nlinarith
       nlinarith [sq_nonneg (sx * a)]
-    have h2 : (sy * fwhm2cc) ^ 2 * b ^ 2 ≤ |sy * b| ^ 2 := by
+    have h2 : (sy * kG) ^ 2 * b ^ 2 ≤ |sy * b| ^ 2 := by
       rw [sq_abs]
-      have : (sy * fwhm2cc) ^ 2 * b ^ 2 = (sy * b) ^ 2 * (fwhm2cc : ℝ) ^ 2 := by ring
+      have : (sy * kG) ^ 2 * b ^ 2 = (sy * b) ^ 2 * kG ^ 2 := by ring
       rw [this]
-      have : (fwhm2cc : ℝ) ^ 2 ≤ 1 := by nlinarith
+      have : kG ^ 2 ≤ 1 := by nlinarith
       nlinarith [sq_nonneg (sy * b)]
     nlinarith [abs_nonneg (sx * a), abs_nonneg (sy * b)]
   rw [xoff_eq, yoff_eq]
@@ -299,13 +369,13 @@ theorem halfwidth_bounds_bbox (sx sy theta : ℝ) :
 theorem truncation_small (nx ny : Nat) (s : RSrc ℝ) (w : Win)
     (hw : window genL nx ny s.pix = some w) (hsx : 0 < s.pix.sx) (hsy : 0 < s.pix.sy)
     (i j : Nat) (hi : i < nx) (hj : j < ny) (hm : w.mem i j = false) :
-    |srcVal genL fwhm2cc s i j| ≤ |s.peak| * Real.exp (-(25 / 2)) := by
+    |srcVal genL kG s i j| ≤ |s.peak| * Real.exp (-(25 / 2)) := by
   rw [srcVal_eq, abs_mul, abs_of_pos (Real.exp_pos _)]
   apply mul_le_mul_of_nonneg_left _ (abs_nonneg _)
   rw [Real.exp_le_exp]
   by_contra hlt
-  have hq : quad ((i : ℝ) - (s.pix.xo - 1)) ((j : ℝ) - (s.pix.yo - 1)) (s.pix.sx * fwhm2cc)
-      (s.pix.sy * fwhm2cc) s.pix.theta ≤ 25 := by linarith
+  have hq : quad ((i : ℝ) - (s.pix.xo - 1)) ((j : ℝ) - (s.pix.yo - 1)) (s.pix.sx * kG)
+      (s.pix.sy * kG) s.pix.theta ≤ 25 := by linarith
   have := window_covers_5sigma nx ny s.pix w hw hsx hsy i j hi hj hq
   rw [this] at hm; cases hm
 
@@ -347,26 +417,26 @@ theorem model_pixel_sum (L : Leaves ℝ) (k : ℝ) (nx ny : Nat) (cat : List (RS
 /-- **model_additive**: the model of a concatenated catalogue is the pixel-wise sum of the models,
     for every WCS oracle, image shape and pair of catalogues -/
 theorem model_additive (wcs : Wcs ℝ) (nx ny : Nat) (c₁ c₂ : List (Src ℝ)) (i j : Nat) :
-    makeModel genL fwhm2cc wcs nx ny (c₁ ++ c₂) i j
-      = makeModel genL fwhm2cc wcs nx ny c₁ i j + makeModel genL fwhm2cc wcs nx ny c₂ i j := by
+    makeModel genL kG wcs nx ny (c₁ ++ c₂) i j
+      = makeModel genL kG wcs nx ny c₁ i j + makeModel genL kG wcs nx ny c₂ i j := by
   unfold makeModel
   rw [model_pixel_sum, model_pixel_sum, model_pixel_sum, List.map_append, List.map_append, List.sum_append]
 
 /-- the model does not depend on the order of the catalogue -/
 theorem model_perm (wcs : Wcs ℝ) (nx ny : Nat) (c₁ c₂ : List (Src ℝ)) (h : c₁.Perm c₂) (i j : Nat) :
-    makeModel genL fwhm2cc wcs nx ny c₁ i j = makeModel genL fwhm2cc wcs nx ny c₂ i j := by
+    makeModel genL kG wcs nx ny c₁ i j = makeModel genL kG wcs nx ny c₂ i j := by
   unfold makeModel
   rw [model_pixel_sum, model_pixel_sum]
   exact ((h.map _).map _).sum_eq
 
 /-- the empty catalogue gives the zero image -/
 theorem model_nil (wcs : Wcs ℝ) (nx ny : Nat) (i j : Nat) :
-    makeModel genL fwhm2cc wcs nx ny [] i j = 0 := by
+    makeModel genL kG wcs nx ny [] i j = 0 := by
   simp [makeModel, makeModelR, zeroImg]
 
 /-- the model vanishes outside the image: no window reaches beyond `nx × ny` -/
 theorem model_zero_outside (wcs : Wcs ℝ) (nx ny : Nat) (cat : List (Src ℝ)) (i j : Nat)
-    (h : ¬ (i < nx ∧ j < ny)) : makeModel genL fwhm2cc wcs nx ny cat i j = 0 := by
+    (h : ¬ (i < nx ∧ j < ny)) : makeModel genL kG wcs nx ny cat i j = 0 := by
   unfold makeModel
   rw [model_pixel_sum]
   apply List.sum_eq_zero
@@ -401,23 +471,23 @@ theorem makeModelR_skip {α : Type} [R α] [RX α] (L : Leaves α) (k : α) (nx 
 theorem offimage_skipped (wcs : Wcs ℝ) (nx ny : Nat) (pre post : List (Src ℝ)) (s : Src ℝ)
     (h : ¬ ((1 / 2 ≤ (s.resolve wcs).pix.xo ∧ (s.resolve wcs).pix.xo < nx + 1 / 2) ∧
             (1 / 2 ≤ (s.resolve wcs).pix.yo ∧ (s.resolve wcs).pix.yo < ny + 1 / 2))) :
-    makeModel genL fwhm2cc wcs nx ny (pre ++ s :: post) = makeModel genL fwhm2cc wcs nx ny (pre ++ post) := by
+    makeModel genL kG wcs nx ny (pre ++ s :: post) = makeModel genL kG wcs nx ny (pre ++ post) := by
   unfold makeModel
   rw [List.map_append, List.map_append, List.map_cons]
-  exact makeModelR_skip genL fwhm2cc nx ny _ _ _ (offimage_window_none genL nx ny _ h)
+  exact makeModelR_skip genL kG nx ny _ _ _ (offimage_window_none nx ny _ h)
 
 /-- the same in mask mode -/
 theorem offimage_skipped_mask (wcs : Wcs ℝ) (nx ny : Nat) (frac : Option ℝ) (sigma : ℝ)
     (pre post : List (Src ℝ)) (s : Src ℝ)
     (h : ¬ ((1 / 2 ≤ (s.resolve wcs).pix.xo ∧ (s.resolve wcs).pix.xo < nx + 1 / 2) ∧
             (1 / 2 ≤ (s.resolve wcs).pix.yo ∧ (s.resolve wcs).pix.yo < ny + 1 / 2))) :
-    maskModel genL fwhm2cc wcs nx ny frac sigma (pre ++ s :: post)
-      = maskModel genL fwhm2cc wcs nx ny frac sigma (pre ++ post) := by
+    maskModel genL kG wcs nx ny frac sigma (pre ++ s :: post)
+      = maskModel genL kG wcs nx ny frac sigma (pre ++ post) := by
   unfold maskModel maskModelR
   rw [List.map_append, List.map_append, List.map_cons, List.foldl_append, List.foldl_append, List.foldl_cons]
   congr 1
   unfold maskStep
-  rw [offimage_window_none genL nx ny _ h]
+  rw [offimage_window_none nx ny _ h]
 
 /-! ### "Equals the catalogued Gaussians" — relative to the WCS oracle -/
 
@@ -439,7 +509,7 @@ noncomputable def fullSum (k : ℝ) (nx ny : Nat) (cat : List (RSrc ℝ)) (i j :
     maps the catalogued sky ellipse to that pixel ellipse. -/
 theorem model_matches_catalogue_partial (nx ny : Nat) (cat : List (RSrc ℝ))
     (hpos : ∀ s ∈ cat, 0 < s.pix.sx ∧ 0 < s.pix.sy) (i j : Nat) (hi : i < nx) (hj : j < ny) :
-    |makeModelR genL fwhm2cc nx ny cat i j - fullSum fwhm2cc nx ny cat i j|
+    |makeModelR genL kG nx ny cat i j - fullSum kG nx ny cat i j|
       ≤ (cat.map (fun s => |s.peak| * Real.exp (-(25 / 2)))).sum := by
   rw [model_pixel_sum]
   unfold fullSum
@@ -460,7 +530,7 @@ theorem foldl_maskStep {α : Type} [R α] [RX α] (L : Leaves α) (k : α) (nx n
     (frac : Option α) (sigma : α) (cat : List (RSrc α)) (b : Nat → Nat → Bool) (i j : Nat) :
     cat.foldl (maskStep L k nx ny frac sigma) b i j = true ↔
       b i j = true ∨ ∃ s ∈ cat, ∃ w, window L nx ny s.pix = some w ∧ w.mem i j = true ∧
-        RX.leb (thr frac sigma s) (srcVal L k s i j) = true := by
+        maskHit L (thr L frac sigma s) (srcVal L k s i j) = true := by
   induction cat generalizing b with
   | nil => simp
   | cons s rest ih =>
@@ -496,7 +566,7 @@ theorem mask_exact {α : Type} [R α] [RX α] (L : Leaves α) (k : α) (wcs : Wc
     (frac : Option α) (sigma : α) (cat : List (Src α)) (i j : Nat) :
     maskModel L k wcs nx ny frac sigma cat i j = true ↔
       ∃ s ∈ cat, ∃ w, window L nx ny (s.resolve wcs).pix = some w ∧ w.mem i j = true ∧
-        RX.leb (thr frac sigma (s.resolve wcs)) (srcVal L k (s.resolve wcs) i j) = true := by
+        maskHit L (thr L frac sigma (s.resolve wcs)) (srcVal L k (s.resolve wcs) i j) = true := by
   unfold maskModel maskModelR
   rw [foldl_maskStep]
   simp only [Bool.false_eq_true, false_or, List.mem_map]
@@ -508,64 +578,66 @@ theorem mask_exact {α : Type} [R α] [RX α] (L : Leaves α) (k : α) (wcs : Wc
     threshold at that pixel, inside that source's window -/
 theorem mask_exact_real (wcs : Wcs ℝ) (nx ny : Nat) (frac : Option ℝ) (sigma : ℝ)
     (cat : List (Src ℝ)) (i j : Nat) :
-    maskModel genL fwhm2cc wcs nx ny frac sigma cat i j = true ↔
+    maskModel genL kG wcs nx ny frac sigma cat i j = true ↔
       ∃ s ∈ cat, ∃ w, window genL nx ny (s.resolve wcs).pix = some w ∧ w.mem i j = true ∧
         (match frac with | some f => f * s.peak | none => sigma * s.rms)
-          ≤ srcVal genL fwhm2cc (s.resolve wcs) i j := by
+          ≤ srcVal genL kG (s.resolve wcs) i j := by
   rw [mask_exact]
+  have e : ∀ s : Src ℝ, thr (genL : Leaves ℝ) frac sigma (s.resolve wcs)
+      = (match frac with | some f => f * s.peak | none => sigma * s.rms) := by
+    intro s
+    cases frac <;> simp [thr, genL, Src.resolve, (thr_eq _ _ _ _).1, (thr_eq _ _ _ _).2]
   constructor
   · rintro ⟨s, hs, w, hw, hm, hv⟩
     refine ⟨s, hs, w, hw, hm, ?_⟩
-    rw [real_leb] at hv
-    cases frac <;> simpa [thr, Src.resolve] using hv
+    rw [maskHit_real, e] at hv; exact hv
   · rintro ⟨s, hs, w, hw, hm, hv⟩
     refine ⟨s, hs, w, hw, hm, ?_⟩
-    rw [real_leb]
-    cases frac <;> simpa [thr, Src.resolve] using hv
+    rw [maskHit_real, e]; exact hv
 
 /-- in mask mode the residual is NaN exactly on the blanked pixels and the input elsewhere -/
 theorem residual_mask (nx ny : Nat) (add : Bool) (frac : Option ℝ) (sigma : ℝ) (data : Img ℝ)
     (cat : List (RSrc ℝ)) (i j : Nat) :
-    residualR genL fwhm2cc nx ny add true frac sigma data cat i j
-      = if maskModelR genL fwhm2cc nx ny frac sigma cat i j then none else some (data i j) := by
-  simp [residualR]
+    residualR genL kG nx ny add true frac sigma data cat i j
+      = if maskModelR genL kG nx ny frac sigma cat i j then none else some (data i j) := by
+  cases add <;> simp [residualR, residPlus_vals.2.2.1, residPlus_vals.2.2.2]
 
 /-! ### add / subtract -/
 
 theorem residual_sub (nx ny : Nat) (frac : Option ℝ) (sigma : ℝ) (data : Img ℝ) (cat : List (RSrc ℝ))
     (i j : Nat) :
-    residualR genL fwhm2cc nx ny false false frac sigma data cat i j
-      = some (data i j - makeModelR genL fwhm2cc nx ny cat i j) := by
-  simp [residualR]
+    residualR genL kG nx ny false false frac sigma data cat i j
+      = some (data i j - makeModelR genL kG nx ny cat i j) := by
+  simp [residualR, residPlus_vals.1]
 
 theorem residual_add (nx ny : Nat) (frac : Option ℝ) (sigma : ℝ) (data : Img ℝ) (cat : List (RSrc ℝ))
     (i j : Nat) :
-    residualR genL fwhm2cc nx ny true false frac sigma data cat i j
-      = some (data i j + makeModelR genL fwhm2cc nx ny cat i j) := by
-  simp [residualR]
+    residualR genL kG nx ny true false frac sigma data cat i j
+      = some (data i j + makeModelR genL kG nx ny cat i j) := by
+  simp [residualR, residPlus_vals.2.1]
 
 /-- **add_sub_restore** (over ℝ; float32 rounding of the two FITS round trips is the named gap):
     running `make_residual(add=True)` and then `make_residual` (subtract) on its output with the same
     catalogue restores every pixel of the input image -/
 theorem add_sub_restore (nx ny : Nat) (frac : Option ℝ) (sigma : ℝ) (data : Img ℝ)
     (cat : List (RSrc ℝ)) (i j : Nat) :
-    residualR genL fwhm2cc nx ny false false frac sigma
-        (fun i j => data i j + makeModelR genL fwhm2cc nx ny cat i j) cat i j
+    residualR genL kG nx ny false false frac sigma
+        (fun i j => data i j + makeModelR genL kG nx ny cat i j) cat i j
       = some (data i j) := by
   rw [residual_sub]; simp
 
 /-- and the other way round -/
 theorem sub_add_restore (nx ny : Nat) (frac : Option ℝ) (sigma : ℝ) (data : Img ℝ)
     (cat : List (RSrc ℝ)) (i j : Nat) :
-    residualR genL fwhm2cc nx ny true false frac sigma
-        (fun i j => data i j - makeModelR genL fwhm2cc nx ny cat i j) cat i j
+    residualR genL kG nx ny true false frac sigma
+        (fun i j => data i j - makeModelR genL kG nx ny cat i j) cat i j
       = some (data i j) := by
   rw [residual_add]; simp
 
 /-- subtracting the model of a catalogue from the model image of that same catalogue leaves exactly 0
     (the loop closes for the model's own output; what the source finder extracts is C01's business) -/
 theorem subtract_own_model (nx ny : Nat) (frac : Option ℝ) (sigma : ℝ) (cat : List (RSrc ℝ)) (i j : Nat) :
-    residualR genL fwhm2cc nx ny false false frac sigma (makeModelR genL fwhm2cc nx ny cat) cat i j
+    residualR genL kG nx ny false false frac sigma (makeModelR genL kG nx ny cat) cat i j
       = some 0 := by
   rw [residual_sub]; simp
 
